@@ -95,6 +95,12 @@ def main():
       shape = {"dense": (5,), "conv2d": (4, 4, 2), "conv1d": (6, 2), "depthwise": (4, 4, 2)}[kind]
       i = L.Input(shape)
       x = QActivation(INPUT_Q[iq][0], name="in_act")(i)
+      # a layer that only passes values through (identity on the numbers): the type of its input edge has to arrive
+      # unchanged at the layer behind it
+      if rnd.random() < 0.35:
+        meta["pass"] = 1
+        x = {"dense": lambda t: L.Flatten(name="pt")(t), "conv1d": lambda t: L.Reshape(shape, name="pt")(t)}.get(
+            kind, lambda t: L.MaxPooling2D((1, 1), name="pt")(t))(x)
       lays = [make_layer(kind, wq, bq, "l1")]
       x = lays[0](x)
       if depth == 2:
@@ -179,7 +185,7 @@ def main():
           for l, pre in zip(lays, outs[1:]):
             events.append({"k": "estimate", "meta": meta, "pattern": pname, "layer": l.name, "cls": l.__class__.__name__,
                            "size": int(sizes[l.name]), "obs": dy(float(np.max(np.abs(pre)))),
-                           "range": list(ranges[l.name])})
+                           "range": list(ranges[l.name]), "hasb": int(bool(l.use_bias))})
           # the sample-based front ends: "sampled" sizes from the observed outputs, "conservative" derives the
           # ranges from the sample and runs the weight-based estimator
           if pname in ("maxmax", "rand") and (j // nshards) % 2 == 0:
@@ -188,7 +194,7 @@ def main():
               for l, pre in zip(lays, outs[1:]):
                 events.append({"k": "estimate", "meta": meta, "pattern": pname + "/" + mode, "layer": l.name,
                                "cls": l.__class__.__name__, "size": int(sz[l.name]), "obs": dy(float(np.max(np.abs(pre)))),
-                               "range": list(ranges[l.name])})
+                               "range": list(ranges[l.name]), "hasb": int(bool(l.use_bias))})
         except KeyError:
           pass
         except Exception as e:
